@@ -70,7 +70,7 @@ def spec(tier, seed):
         shp = shapes.shapes_H_upto(3, 2) + shapes.shapes_H(2, 3) + shapes.shapes_H(1, 3)
         P = P_QUICK
     else:
-        shp = shapes.shapes_H_upto(3, 3) + shapes.shapes_H(4, 2) + shapes.shapes_H(2, 4)[::2] + shapes.shapes_H(4, 3)[::6]
+        shp = shapes.shapes_H_upto(4, 3) + shapes.shapes_H(2, 4) + shapes.shapes_H(3, 4)[::3]
         P = P_THOROUGH
     units = []
     small = set(shapes.shapes_H_upto(2, 2)) if tier == "quick" else set(shapes.shapes_H_upto(2, 2) + shapes.shapes_H(3, 1) + shapes.shapes_H(1, 3))
@@ -91,7 +91,7 @@ def spec(tier, seed):
         "caps": {"paths": 200000 if tier == "quick" else 2000000, "wall": 600 if tier == "quick" else 3000},
         "level": "model_checking",
         "bounds": {
-            "shapes": "all Hypergraph incidence shapes up to isomorphism with (N<=3,M<=2) or (N<=2,M<=3)" if tier == "quick" else "(N<=3,M<=3), (4,2), half of (2,4), a sixth of (4,3)",
+            "shapes": "all Hypergraph incidence shapes up to isomorphism with (N<=3,M<=2) or (N<=2,M<=3)" if tier == "quick" else "(N<=4,M<=3), (2,4), a third of (3,4)",
             "labels": "node labels, edge ids, id counter, every id argument: unbounded integers (z3 Int); one string node/edge label in the second label mode",
             "steps": "one mutator call from an arbitrary invariant state (inductive step) + constructor base cases",
             "bulk_ops_shapes": "bulk add formats 1-5 and weighted: N<=2,M<=2" if tier == "quick" else "bulk add formats: (N<=3,M<=2) or (N<=2,M<=3)",
